@@ -32,8 +32,10 @@ def cfg(mslots, chunk, blocks, refresh, events, reorg, pre, export):
 CONFIGS = {
     'C08': {
         'quick': [('chain', [1, 2, 3], 1, 1, 3, 4, False, []), ('chain2', [1, 2, 3], 2, 1, 2, 4, False, []),
-                  ('coll', [7, 8], 1, 1, 2, 3, False, [[4, 5, 6]]), ('opret', [9, 10, 12], 2, 1, 2, 3, False, [])],
-        'thorough': [('chain', [1, 2, 3], 1, 2, 3, 6, False, []), ('chain2', [1, 2, 3], 2, 2, 3, 5, False, []),
+                  ('coll', [7, 8], 1, 1, 2, 3, False, [[4, 5, 6]]), ('opret', [9, 10, 12], 2, 1, 2, 3, False, []),
+                  # a child with one confirmed input and one from a parent fetched in another chunk (deferred acceptance)
+                  ('mix', [1, 13], 1, 1, 2, 3, False, [])],
+        'thorough': [('mix', [1, 2, 13], 1, 1, 3, 4, False, []),('chain', [1, 2, 3], 1, 2, 3, 6, False, []), ('chain2', [1, 2, 3], 2, 2, 3, 5, False, []),
                      ('coll', [7, 8, 1], 1, 1, 3, 5, False, [[4, 5, 6]]), ('opret', [9, 10, 12, 11], 2, 1, 3, 4, False, [])],
     },
     'C09': {
@@ -122,7 +124,7 @@ def check(pid, tier, seed):
         if errors:
             raise MachineryError(f'{len(errors)} executions failed in the harness, first:\n{errors[0]["error"]}\n{errors[0]["job"]}')
         res, failures = validate_traces(sc, 'MempoolTrace', 'MempoolTrace.cfg', [{k: t[k] for k in ('tree', 'steps')} for t in traces],
-                                        workers=16, timeout=3000)
+                                        workers=16, timeout=3000, invariants=CLAUSES[pid])
         nquiet = sum(1 for t in traces for s in t['steps'] if s.get('ev') == 'handover' and s.get('quiet'))
         out.add(traces_validated_against_impl=len(traces), trace_states=res.distinct,
                 handovers=sum(1 for t in traces for s in t['steps'] if s.get('ev') == 'handover'), quiet_handovers=nquiet)
@@ -158,7 +160,8 @@ def replay(doc):
         if s['ev'] != 'step':
             print(json.dumps({k: v for k, v in s.items() if k != 'q'})[:600])
     with Scratch('mpr') as sc:
-        _res, failures = validate_traces(sc, 'MempoolTrace', 'MempoolTrace.cfg', [{k: t[k] for k in ('tree', 'steps')}], workers=2)
+        _res, failures = validate_traces(sc, 'MempoolTrace', 'MempoolTrace.cfg', [{k: t[k] for k in ('tree', 'steps')}], workers=2,
+                                         invariants=CLAUSES[doc['property']])
     failures = [f for f in failures if f['clause'] in CLAUSES[doc['property']]]
     if failures:
         print(f"VIOLATION property={doc['property']} replay=(this file) clause={failures[0]['clause']} step={failures[0]['l']}")
